@@ -960,7 +960,10 @@ def apply_op(root, op, kept=None):
         # MatchMapping._all, MatchClass._attrs, Compare._all) or of a plain list field
         from fst import FST
         fld, st, sp, how = op['field'], op['start'], op['stop'], op['how']
-        with FST.options(**(opts if op.get('norm', True) else {})):
+        o = dict(opts if op.get('norm', True) else {})
+        if 'trivia' in op:
+            o['trivia'] = op['trivia']
+        with FST.options(**o):
             if how == 'cut':
                 f.get_slice(st, sp, fld, cut=True)
             elif how == 'copy':
@@ -1310,6 +1313,68 @@ def raw_product():
             for code in RAW_CODES:
                 out.append((src, [{'pre': pre, 'op': {'op': 'raw_replace', 'path': list(map(list, p)), 'code': code}}]))
                 out.append((src, [{'pre': pre, 'op': {'op': 'reparse', 'path': list(map(list, p)), 'code': code}}]))
+    return out
+
+
+# separated sequences in every enclosing context x multi-line layouts with comments between the elements x every span
+# deleted / cut (with and without trivia): the tree must sit where CPython puts it, in particular UNDELIMITED sequences
+# (subscript index, comprehension target) whose first elements go away while a comment before the new first one stays
+SEQ_CONTEXTS = [
+    ('x[{S}]', [['body', 0], ['value', None], ['slice', None]], 'elts', 'e'),
+    ('x[{S}] = 1', [['body', 0], ['targets', 0], ['slice', None]], 'elts', 'e'),
+    ('y = [j for {S} in k]', [['body', 0], ['value', None], ['generators', 0], ['target', None]], 'elts', 'e'),
+    ('y = {{j: 1 for j in k if z[{S}]}}', [['body', 0], ['value', None], ['generators', 0], ['ifs', 0], ['slice', None]], 'elts', 'e'),
+    ('x = [{S}]', [['body', 0], ['value', None]], 'elts', 'e'),
+    ('x = ({S})', [['body', 0], ['value', None]], 'elts', 'e'),
+    ('x = {{{S}}}', [['body', 0], ['value', None]], 'elts', 'e'),
+    ('f({S})', [['body', 0], ['value', None]], 'args', 'e'),
+    ('class C({S}): pass', [['body', 0]], 'bases', 'e'),
+    ('def f({S}): pass', [['body', 0], ['args', None]], '_all', 'e'),
+    ('from m import ({S})', [['body', 0]], 'names', 'e'),
+    ('with ({S}): pass', [['body', 0]], 'items', 'e'),
+    ('del ({S})', [['body', 0], ['targets', 0]], 'elts', 'e'),
+    ('match x:\n case [{S}]: pass', [['body', 0], ['cases', 0], ['pattern', None]], 'patterns', 'e'),
+    ('match x:\n case ({S}): pass', [['body', 0], ['cases', 0], ['pattern', None]], 'patterns', 'e'),
+    ('x = {{{S}}}', [['body', 0], ['value', None]], '_all', 'kv'),
+    ('(a for {S} in k)', [['body', 0], ['value', None], ['generators', 0], ['target', None]], 'elts', 'e'),
+]
+
+
+def _seq_layouts(kind):
+    el = ['aa', 'bb', 'cc', 'dd'] if kind == 'e' else ['aa: 1', 'bb: 2', 'cc: 3', 'dd: 4']
+    a, b, c, d = el
+    return [
+        f'{a}, {b}, {c}',
+        f'{a},\n  {b},\n  {c}',
+        f'{a},\n  # keep this comment\n  {b}, {c}',
+        f'{a},\n  # keep 1\n  {b},\n  # keep 2\n  {c},\n  # keep 3\n  {d}',
+        f'{a},  # ta\n  {b},  # tb\n  {c}  # tc\n',
+        f'\n  # lead\n  {a},  # ta\n\n  # own\n  {b}, {c},\n',
+        f'{a}, {b},  # tab\n  # own é\n  {c}, {d}',
+    ]
+
+
+def seq_layout_product():
+    out = []
+    for tmpl, path, fld, kind in SEQ_CONTEXTS:
+        for lay in _seq_layouts(kind):
+            src = tmpl.replace('{S}', lay).replace('{{', '{').replace('}}', '}')
+            try:
+                tree = ast.parse(src)
+            except SyntaxError:
+                continue
+            n = 4 if ('dd' in lay) else 3
+            pre = [[list(map(list, p)), q] for p, _ in enum_nodes(tree) for q in ('loc', 'bloc', 'pars', 'src', 'own_src', 'links', 'nav', 'pos', 'views')]
+            for i in range(n):
+                for j in range(i + 1, n + 1):
+                    if j - i == n:
+                        continue
+                    for how in ('del', 'cut'):
+                        for triv in (None, False, 'all'):
+                            op = {'op': 'virt', 'path': path, 'field': fld, 'start': i, 'stop': j, 'how': how}
+                            if triv is not None:
+                                op['trivia'] = triv
+                            out.append((src, [{'pre': pre, 'op': op}]))
     return out
 
 
